@@ -473,6 +473,15 @@ class BaseParser:
                     context.handle_error(error)
         return value
 
+    def given_elsewhere(self, excluded_keys: List[str], context: RuntimeContext, as_attname: bool = False) -> set:
+        # the fields given outside of the data (the positional arguments of a call), for the dependencies of the
+        # others: one that was left out by the 'exclude' policy counts as not given there, like one given in the data
+        left_out = {
+            field.attname if as_attname else field.name
+            for field in self.fields.values() if field.name in context.excluded_fields
+        }
+        return set(excluded_keys).difference(left_out)
+
     def data_first_parse(
         self,
         data: dict,
@@ -573,7 +582,7 @@ class BaseParser:
         if dependencies:
             dependant = set(result)
             if excluded_keys:
-                dependant.update(excluded_keys)
+                dependant.update(self.given_elsewhere(excluded_keys, context=context, as_attname=as_attname))
 
             diff = dependencies.difference(dependant)
             lack = dependencies.intersection(unprovided_fields)
@@ -683,7 +692,7 @@ class BaseParser:
         if dependencies:
             dependant = set(result)
             if excluded_keys:
-                dependant.update(excluded_keys)
+                dependant.update(self.given_elsewhere(excluded_keys, context=context, as_attname=as_attname))
 
             diff = dependencies.difference(dependant)
             lack = dependencies.intersection(unprovided_fields)
